@@ -7,6 +7,11 @@ import IrVerif.Lemmas.ScopeModel
 import IrVerif.Props.C17
 import IrVerif.Model.ScopeExt
 import IrVerif.Lemmas.ScopeEff
+import IrVerif.Lemmas.ScopeExtTop
+import IrVerif.Lemmas.ScopeExtSerOk
+import IrVerif.Lemmas.ScopeExtDevCert
+import IrVerif.Lemmas.ScopeCert
+import IrVerif.Lemmas.ScopeExtModelTop
 namespace IrVerif.Scope
 
 /-! ### the write log only changes tensor names -/
@@ -418,6 +423,171 @@ theorem C03_pure_ext (ver : Option Int) (w w1 : WorldE) (p : GraphE) (h : serial
     obtain ⟨rfl, _⟩ := h
     exact ⟨rfl, rfl, rfl, fun t => applyWrites_data ws w.st.tens t⟩
 
+/-! ### round trip of the extended model (`Model/ScopeExt.lean`) -/
+
+/-- the round trip relation for extended models: the core relation `IsoR`, and on the values the proto carries
+    metadata / annotations for, the reloaded extension state is the source one in canonical form: merged
+    `metadata_props` sorted by key (equal as a finite map), a quantization annotation sorted by key -/
+structure IsoE (w D : WorldE) (σ : Nat → Nat) : Prop where
+  core : IsoR w.core D.core σ
+  vmeta : ∀ v ∈ emitG w.st.vals w.root, D.ext.vmeta (σ v) = ssSorted (w.ext.vmeta v)
+  quant : ∀ v ∈ emitQG w.st.vals w.root, D.ext.quant (σ v) = (w.ext.quant v).map ssSorted
+
+/-- **C03_roundtrip_ext_graph** (deepening round 5): IR -> proto -> IR for the EXTENDED model of graphs (main
+    graph with nested graphs): value-level `metadata_props`, quantization annotations, node device configurations.
+    Hypothesis `ReloadableE w`: the resolution certificate of the core (`Reloadable`), the representation invariant
+    of the extension state (`ExtWF`: dicts with distinct keys, no empty annotation) and the certificate `extG`
+    (equally named inputs / initializers / node outputs / outputs of one graph carry the same annotation; a graph
+    output that nothing of the graph binds, and a node output without a name, carry none) — every model the extended
+    deserializer returns satisfies it (`deserializeE_reloadableE`).  Then serialization raises (only in a device
+    configuration: `reloadableE_ser`), or: the proto
+    deserializes to a model `D` isomorphic to `w` (`IsoR`: same tree up to the renaming `σ`, names, emitted type /
+    shape / doc, initializer payloads), in which every emitted value carries the source metadata sorted by key and
+    every value whose annotation is written carries the source annotation sorted by key (`IsoE`); `D` is
+    consistent; and `D` serializes to the SAME proto — in particular the device configurations of every node are
+    written again as they were (sharding values are preserved BY NAME: the reloaded spec refers to the value the
+    name resolves to at the node).
+    Sharding values BY IDENTITY: `C03_roundtrip_ext_devices`; models with FUNCTIONS: `C03_roundtrip_ext_partial`;
+    function ATTRIBUTES are covered by `C03_meta_roundtrip`. -/
+theorem C03_roundtrip_ext_graph (ver : Option Int) (w : WorldE) (h : ReloadableE w) :
+    (∃ e, serializeE ver w = .error (.dev e)) ∨
+    ∃ (w1 : WorldE) (q : GraphE) (D : WorldE) (σ : Nat → Nat) (w2 : WorldE),
+      serializeE ver w = .ok (w1, q) ∧ deserializeE q = .ok D ∧ IsoE w D σ ∧ Consistent D.core ∧
+      serializeE ver D = .ok (w2, q) := by
+  rcases reloadableE_ser ver w h with ⟨q, ws, hs⟩ | ⟨e, hs⟩
+  · obtain ⟨D, B, hD, hrs, hk, ht, hio, hco, hm, hq⟩ := reloadableE_roundtrip ver w h q ws hs
+    obtain ⟨D', ws', hD', hq'⟩ := reloadableE_fixpoint ver w h q ws hs
+    have hDD : D' = D := by
+      rw [hD] at hD'
+      exact (Except.ok.inj hD').symm
+    subst hDD
+    obtain ⟨_, _, hwf⟩ := h
+    refine .inr ⟨⟨w.st.writes ws, w.ext, w.root⟩, q, D', sig B, ⟨D'.st.writes ws', D'.ext, D'.root⟩,
+      by simp only [serializeE, hs], hD, ⟨?_, ?_, ?_⟩, (C17_consistent_ext q D' hD).1, by simp only [serializeE, hq']⟩
+    · exact ⟨TreeRelG.iso _ B _ _ ht,
+        fun a ha b hb he => hrs.sig_inj (hk ▸ ha) (hk ▸ hb) he,
+        fun v hv => hrs.sig_name (hk ▸ hv),
+        fun v hv => (hio v hv).2,
+        fun kv hkv t htc => by
+          obtain ⟨_, _, hc⟩ := hco kv hkv
+          obtain ⟨t', h1, _, h3, h4⟩ := hc t htc
+          exact ⟨t', h1, h3, h4⟩⟩
+    · intro v hv
+      rw [(hm v hv).2]
+      exact normM_eq _ (hwf v).1
+    · intro v hv
+      rw [(hq v hv).2]
+      cases hqv : w.ext.quant v with
+      | none => rfl
+      | some ps =>
+        simp only [normQ, Option.map_some]
+        rw [ss_rt ps ((hwf v).2 ps hqv).1]
+  · exact .inl ⟨e, by simp only [serializeE, hs]⟩
+
+/-- **C03_roundtrip_ext_devices** (deepening round 5): `C03_roundtrip_ext_graph` with the node device configurations
+    BY IDENTITY.  Additional hypotheses: the IR-version gate is open (`ver = none` or `>= 11`: below 11 the
+    configurations are not written at all) and `DevCertG`: every value a sharding spec refers to carries a
+    non-empty name and is the value that name resolves to in the scopes visible at its node (innermost first, the
+    node's own placeholders included), a spec without value object (`ShardV.fresh n`) names nothing visible — every
+    deserialized model satisfies it (`deserializeE_devCert`).  Then, if serialization does not raise, every node of
+    the reloaded model carries the source configurations with each sharding value replaced by its image under the
+    renaming `σ` (`DevIsoG`): a value shared between a node input, an outer scope and a sharding spec stays one
+    value.  Proof: the lock-step induction exports the scopes in which the reloaded names are resolved (`DevTrG`:
+    the certificate's tables renamed by `σ`), `resolve_mapT` commutes resolution with the renaming. -/
+theorem C03_roundtrip_ext_devices (ver : Option Int) (hgate : ver = none ∨ ∃ v, ver = some v ∧ ¬ v < 11) (w : WorldE)
+    (h : ReloadableE w) (hdc : DevCertG w.st.vals w.ext [] w.root) :
+    (∃ e, serializeE ver w = .error (.dev e)) ∨
+    ∃ (w1 : WorldE) (q : GraphE) (D : WorldE) (σ : Nat → Nat) (w2 : WorldE),
+      serializeE ver w = .ok (w1, q) ∧ deserializeE q = .ok D ∧ IsoE w D σ ∧
+      DevIsoG w.ext D.ext σ w.root D.root ∧ Consistent D.core ∧ serializeE ver D = .ok (w2, q) := by
+  rcases reloadableE_ser ver w h with ⟨q, ws, hs⟩ | ⟨e, hs⟩
+  · obtain ⟨D, B, hD, hrs, hk, ht, hio, hco, hm, hq, hdi⟩ := reloadableE_roundtrip_devs ver hgate w h hdc q ws hs
+    obtain ⟨D', ws', hD', hq'⟩ := reloadableE_fixpoint ver w h q ws hs
+    have hDD : D' = D := by
+      rw [hD] at hD'
+      exact (Except.ok.inj hD').symm
+    subst hDD
+    obtain ⟨_, _, hwf⟩ := h
+    refine .inr ⟨⟨w.st.writes ws, w.ext, w.root⟩, q, D', sig B, ⟨D'.st.writes ws', D'.ext, D'.root⟩,
+      by simp only [serializeE, hs], hD, ⟨?_, ?_, ?_⟩, hdi, (C17_consistent_ext q D' hD).1,
+      by simp only [serializeE, hq']⟩
+    · exact ⟨TreeRelG.iso _ B _ _ ht,
+        fun a ha b hb he => hrs.sig_inj (hk ▸ ha) (hk ▸ hb) he,
+        fun v hv => hrs.sig_name (hk ▸ hv),
+        fun v hv => (hio v hv).2,
+        fun kv hkv t htc => by
+          obtain ⟨_, _, hc⟩ := hco kv hkv
+          obtain ⟨t', h1, _, h3, h4⟩ := hc t htc
+          exact ⟨t', h1, h3, h4⟩⟩
+    · intro v hv
+      rw [(hm v hv).2]
+      exact normM_eq _ (hwf v).1
+    · intro v hv
+      rw [(hq v hv).2]
+      cases hqv : w.ext.quant v with
+      | none => rfl
+      | some ps =>
+        simp only [normQ, Option.map_some]
+        rw [ss_rt ps ((hwf v).2 ps hqv).1]
+  · exact .inl ⟨e, by simp only [serializeE, hs]⟩
+
+/-- the round trip relation for extended models WITH FUNCTIONS: `IsoM` on the core, and the extension state of the
+    emitted values (main graph `emitG` / `emitQG`; function bodies `emitF` / `emitQF`) in canonical form -/
+structure IsoME (w D : MWorldE) (σ : Nat → Nat) : Prop where
+  core : IsoM w.core D.core σ
+  vmeta : ∀ v ∈ emitM w.core, D.ext.vmeta (σ v) = ssSorted (w.ext.vmeta v)
+  quant : ∀ v ∈ emitQM w, D.ext.quant (σ v) = (w.ext.quant v).map ssSorted
+
+/-- **C03_roundtrip_ext_partial** (deepening round 5): IR -> proto -> IR for extended models WITH FUNCTIONS
+    (`MWorldE`; `serializeME` / `deserializeME`, IR version >= 10 format): main graph, nested graphs and function
+    bodies.  Hypothesis `ReloadableME`: `ReloadableM` of the core, `extG` of the main graph, `extF` of every function
+    (equally truthy-named function inputs carry the same merged metadata - they share ONE value_info entry; the node
+    clause of `extG` for the body) and `ExtWF`; every model `deserializeME` returns satisfies it
+    (`deserializeME_reloadableME`, duplicate function identifiers included).  Then serialization raises (only in a
+    device configuration), or the proto deserializes to a model `D` with `IsoME w D σ` - same main graph and functions
+    up to `σ` (`IsoM`), merged metadata of every emitted value (function inputs and node outputs included) sorted by
+    key, annotations sorted by key - and `D` serializes to the SAME proto (so the device configurations of every
+    node, in function bodies too, are written again as they were: sharding values BY NAME).
+    MISSING for the full `C03_roundtrip_ext`: sharding values BY IDENTITY inside FUNCTION bodies and at model level
+    (`DevIsoG` is proved for the main graph and its nested graphs: `C03_roundtrip_ext_devices`; the function
+    lock-step `rtE_func` does not export the device trace yet).  Function attributes: `C03_meta_roundtrip`. -/
+theorem C03_roundtrip_ext_partial (ver : Option Int) (w : MWorldE) (h : ReloadableME w) :
+    (∃ e, serializeME ver w = .error (.dev e)) ∨
+    ∃ (w1 : MWorldE) (Q : ModelE) (D : MWorldE) (σ : Nat → Nat) (w2 : MWorldE),
+      serializeME ver w = .ok (w1, Q) ∧ deserializeME Q = .ok D ∧ IsoME w D σ ∧ serializeME ver D = .ok (w2, Q) := by
+  rcases reloadableME_ser ver w h with ⟨w1, Q, hs⟩ | ⟨e, he⟩
+  · obtain ⟨D, σ, hD, a1, a2, a3, a4, a5, a6, a7, a8⟩ := reloadableME_roundtrip_iso ver w h w1 Q hs
+    obtain ⟨D', w2, hD', hq'⟩ := reloadableME_fixpoint ver w h w1 Q hs
+    have hDD : D' = D := by
+      rw [hD] at hD'
+      exact (Except.ok.inj hD').symm
+    subst hDD
+    obtain ⟨_, _, _, hwf⟩ := h
+    refine .inr ⟨w1, Q, D', σ, w2, hs, hD, ⟨⟨a1, a2, a3, a4, a5, a6⟩, ?_, ?_⟩, hq'⟩
+    · intro v hv
+      rw [a7 v hv]
+      exact normM_eq _ (hwf v).1
+    · intro v hv
+      rw [a8 v hv]
+      cases hqv : w.ext.quant v with
+      | none => rfl
+      | some ps =>
+        simp only [normQ, Option.map_some]
+        rw [ss_rt ps ((hwf v).2 ps hqv).1]
+  · exact .inl ⟨e, he⟩
+
+/-- **C03_ext_certificate_decidable**: the hypothesis `ReloadableE` of `C03_roundtrip_ext_graph` (and with it the
+    hypothesis `Reloadable` of `C03_roundtrip_reloadable` for the core) has a decision procedure: `reloadableEB`
+    (`Model/ScopeCert.lean`: the scope discipline re-run with Boolean checks) is sound for every extended model whose
+    extension state is blank above the allocation counter — which holds by construction of the worlds the driver builds
+    from the real IR.  The driver evaluates `reloadableEB` on every generated IR model (scope.eser: counter
+    hyp_reloadable_ext) and on every deserialized model (scope.edeser: counter ext_certificate_holds, where
+    `deserializeE_reloadableE` says it must hold). -/
+theorem C03_ext_certificate_decidable (w : WorldE) (h : reloadableEB w = true) (hf : ExtFresh w.st w.ext) :
+    ReloadableE w ∧ Reloadable w.core := by
+  have := reloadableEB_sound w h hf
+  exact ⟨this, this.1⟩
+
 /-! ### purity over the write sites of serde.py (`Model/ScopeEff.lean`) -/
 
 /-- **C03_pure_sites**: `to_proto` modelled at the granularity of the attribute assignments that serde.py's
@@ -538,5 +708,15 @@ example : (⟨.value, 0, "name", .optName (some "renamed")⟩ : Effect).site ∉
 example : (match deserializeE (.mk [] [⟨"w", "d0", "f32", "[2]"⟩] [] [] [] []) with
     | .ok w => (match serializeEff none w with | .ok (es, _) => es.length | .error _ => 0)
     | .error _ => 0) = 1 := by decide +kernel
+
+/-- the hypothesis of `C03_roundtrip_ext_graph` is satisfiable (a deserialized extended model with merged metadata,
+    annotations, a placeholder and device configurations) and the second alternative occurs at IR version 10 -/
+example : ∃ w, deserializeE exampleExt = .ok w ∧ ReloadableE w ∧ isOkB (serializeE (some 10) w) = true := by
+  have h : (match deserializeE exampleExt with
+    | .ok w => isOkB (serializeE (some 10) w)
+    | .error _ => false) = true := by decide +kernel
+  split at h
+  · next w hw => exact ⟨w, hw, deserializeE_reloadableE _ _ hw, h⟩
+  · exact absurd h (by simp)
 
 end IrVerif.Scope
